@@ -1967,6 +1967,18 @@ fn corpus() -> Vec<(usize, Vec<Step>)> {
             ]),
             Step::In(Inp::Exec(vec![])),
         ]));
+        // machines_differ_on_rewatch_counterexample, connection side: every snapshot of a key counts
+        // (k: 0 at the first WATCH, 1 at the second, 0 again at EXEC: nil)
+        v.push((shards, vec![
+            Step::Other(Cmd::Set("k".into(), b("0"))),
+            Step::In(Inp::Watch(vec!["k".into()])),
+            Step::Other(Cmd::Set("k".into(), b("1"))),
+            Step::In(Inp::Watch(vec!["k".into()])),
+            Step::Other(Cmd::Set("k".into(), b("0"))),
+            Step::In(Inp::Multi),
+            Step::In(Inp::Exec(vec![])),
+            Step::ExpectExec("C05:machines-differ:rewatch:connection-compares-every-snapshot", "*-"),
+        ]));
         // healthy paths: string watch detected, DISCARD, EXECABORT, nested MULTI, WATCH in MULTI
         v.push((shards, vec![
             Step::Other(Cmd::Set("k".into(), b("5"))),
@@ -2511,6 +2523,9 @@ fn xcorpus() -> Vec<(Vec<XStep>, Option<(&'static str, &'static str)>)> {
               XStep::Watch(vec!["ab".into()]), c(Cmd::Zadd("ab".into(), 15, b("alice"))), XStep::Multi,
               c(Cmd::Set("w".into(), b("bob"))), c(Cmd::Zadd("ab".into(), 0, b("alice"))), XStep::Exec],
          Some(("C05:x:watch:zset-score-only-change-detected", "$-"))),
+        // machines_differ_on_rewatch_counterexample, executor side: the first snapshot stands
+        (vec![c(Cmd::Set("k".into(), b("0"))), XStep::Watch(vec!["k".into()]), c(Cmd::Set("k".into(), b("1"))), XStep::Watch(vec!["k".into()]), c(Cmd::Set("k".into(), b("0"))), XStep::Multi, XStep::Exec],
+         Some(("C05:machines-differ:rewatch:executor-keeps-first-snapshot", "*0"))),
         // … and in a one-member sorted set
         (vec![c(Cmd::Zadd("ab".into(), 10, b("alice"))), XStep::Watch(vec!["ab".into()]), c(Cmd::Zadd("ab".into(), 11, b("alice"))), XStep::Multi, c(Cmd::Set("w".into(), b("x"))), XStep::Exec],
          Some(("C05:x:watch:zset-score-only-change-detected", "$-"))),
